@@ -302,7 +302,29 @@ func (e *exec) Body() {
 			e.perWriter[t][writer] = append(e.perWriter[t][writer], fmt.Sprint(item))
 		}
 	}
-	foreign := &gomavlib.Channel{}
+	// a foreign channel: an open channel of ANOTHER node (not a hand-made zero Channel, which no
+	// caller could legitimately hold)
+	foreignConn := &vnet.FakeConn{Name: "foreign"}
+	n2 := &gomavlib.Node{Dialect: sx.Dialect(), OutVersion: gomavlib.V2, OutSystemID: 77, HeartbeatDisable: true,
+		Endpoints: []gomavlib.EndpointConf{gomavlib.EndpointCustom{ReadWriteCloser: foreignConn}}}
+	if err := n2.Initialize(); err != nil {
+		e.problems = append(e.problems, "Initialize of the second node: "+err.Error())
+		e.finished = true
+		vmc.Finish()
+	}
+	var foreign *gomavlib.Channel
+	vmc.GoApp("consumer2", func() {
+		for {
+			ev, ok := n2.Events().Recv2()
+			if !ok {
+				return
+			}
+			if x, isOpen := ev.(*gomavlib.EventChannelOpen); isOpen && foreign == nil {
+				foreign = x.Channel
+			}
+		}
+	})
+	vmc.Await("foreign channel open", func() bool { return foreign != nil })
 	reps := 1
 	if p.Many {
 		reps = 3
@@ -338,7 +360,11 @@ func (e *exec) Body() {
 	target := vmc.NowNS() + int64(2*time.Second)
 	vmc.Await("settled", func() bool { return vmc.NowNS() >= target })
 	e.check()
+	if len(foreignConn.Written) != 0 {
+		e.problems = append(e.problems, fmt.Sprintf("the other node's transport received %d writes: items addressed to a foreign channel must be ignored", len(foreignConn.Written)))
+	}
 	n.Close()
+	n2.Close()
 	e.finished = true
 	vmc.Finish()
 }
